@@ -484,6 +484,10 @@ def c08_cases():
     C.append(SpecCase('IdxAP', 'func IdxAP(a *[4]int32, i int) int32 { return a[i] }', [('a', 'arrptr4'), ('i', 'int32')],
                       lambda ex, st, P: z3.Or(P['a'].isnil, oob(P['i'], 4)), None,
                       lambda ex, st0, st, P, r: [('value', r == aelem(ex, st0, P['a'], P['i']))]))
+    # &s[i] evaluates s[i]: an index out of range panics (the pointer itself is opaque here)
+    C.append(SpecCase('AddrS', 'func AddrS(s []int32, i int) *int32 { return &s[i] }', [('s', 'slice'), ('i', 'int32')],
+                      lambda ex, st, P: oob(P['i'], P['s'].fields['$length']), 'index out of range',
+                      lambda ex, st0, st, P, r: []))
     # the operand of a shift is evaluated also when the count makes the result 0 (here: its nil dereference must panic)
     C.append(SpecCase('ShBigC', 'func ShBigC(a *[4]int32) int32 { return a[1] << 40 }', [('a', 'arrptr4')],
                       lambda ex, st, P: P['a'].isnil, None,
